@@ -11,7 +11,7 @@ constexpr int NSLOT = 8;   // data-driven expectation slots (one site file each)
 constexpr int NLIT = 4;    // literal-site expectation slots (compile-time spellings)
 constexpr int NSEQ = 3;    // sequence object slots
 constexpr int NDW = 3;     // deathwatched object slots
-constexpr int NMON = 2;    // lifetime-monitor slots per deathwatched object
+constexpr int NMON = 3;    // lifetime-monitor slots per deathwatched object
 constexpr int MAXTR = 3;   // tracer nesting depth
 
 enum Func { F_f = 0, F_h, F_ovi, F_ovs, F_v, F_cf, F_g, NFUNC };
